@@ -228,6 +228,10 @@ func newMachine(initial []int) *machine {
 			me := "I" + strconv.Itoa(id)
 			st.calls = append(st.calls, me)
 			st.seen = append(st.seen, seen{me, req.Method, req.URL.String()})
+			if (id+st.n)%3 == 0 {
+				// the idiom for changing a request one does not own: give it a header map of its own first
+				req.Header = req.Header.Clone()
+			}
 			req.Header.Add("X-I"+strconv.Itoa(id), strconv.Itoa(st.n))
 			if st.n-1 == st.failAt {
 				switch (id + st.n) % 4 {
